@@ -308,7 +308,7 @@ class Negative(Facet):
 # ----------------------------------------------------------------------------- dimfiles
 
 
-def write_dim_file(path, name, items, fmt, orient, header, sheet=None, extra_sheet_first=False):
+def write_dim_file(path, name, items, fmt, orient, header, sheet=None, extra_sheet_first=False, later_sheets=()):
     cells = ([name] if header else []) + list(items)
     df = pd.DataFrame([cells]) if orient == "row" else pd.DataFrame({0: cells})
     if fmt == "csv":
@@ -320,6 +320,9 @@ def write_dim_file(path, name, items, fmt, orient, header, sheet=None, extra_she
             df.to_excel(w, sheet_name=sheet or "Sheet1", header=False, index=False)
             if not extra_sheet_first and sheet:
                 pd.DataFrame({0: ["decoy"]}).to_excel(w, sheet_name="zz other", header=False, index=False)
+            for extra in later_sheets:
+                # further sheets of the workbook (old versions, notes) - never the first one
+                pd.DataFrame({0: ["old_1", "old_2"]}).to_excel(w, sheet_name=extra[:31], header=False, index=False)
 
 
 def run_dimfiles(desc):
@@ -333,7 +336,11 @@ def run_dimfiles(desc):
             named_sheet = fmt == "excel" and desc["sheets"] == "named"
             # sheet names are free text as well: '0', '1', '2020' are names, not positions
             sname = [f"dim {d['letter']}", "0", "1", "2020"][sp.get("sheetname", 0) % 4]
-            write_dim_file(path, d["name"], d["items"], fmt, sp["orient"], sp["header"], sheet=sname if named_sheet else None, extra_sheet_first=named_sheet and sp["decoy_first"])
+            later = ()
+            if fmt == "excel" and not named_sheet and sp.get("later_sheet"):
+                # no sheet is named, so the FIRST sheet is the one to read - whatever the others are called
+                later = ({1: d["name"], 2: d["letter"], 3: "items"}[sp["later_sheet"]],)
+            write_dim_file(path, d["name"], d["items"], fmt, sp["orient"], sp["header"], sheet=sname if named_sheet else None, extra_sheet_first=named_sheet and sp["decoy_first"], later_sheets=later)
             files[d["name"]] = path
             if named_sheet:
                 sheets[d["name"]] = sname
@@ -402,7 +409,7 @@ def dimfile_cases(draw):
             pos = draw(st.integers(0, len(d["items"]) - 1))
             if lab not in d["items"]:
                 d["items"][pos] = lab
-    specs = [{"orient": draw(st.sampled_from(["row", "col"])), "header": draw(st.booleans()), "decoy_first": draw(st.booleans()), "sheetname": draw(st.integers(0, 3))} for _ in U["dims"]]
+    specs = [{"orient": draw(st.sampled_from(["row", "col"])), "header": draw(st.booleans()), "decoy_first": draw(st.booleans()), "sheetname": draw(st.integers(0, 3)), "later_sheet": draw(st.sampled_from([0, 0, 1, 1, 2, 3]))} for _ in U["dims"]]
     fmt = draw(st.sampled_from(["csv", "excel", "excel"]))
     if draw(st.integers(0, 2)) == 0:
         # further dimensions whose items come from a file another dimension uses too (no header line in that
@@ -443,7 +450,8 @@ def run_files(desc):
         ext = "csv" if fmt == "csv" else "xlsx"
         for d in U["dims"]:
             path = os.path.join(tmp, f"dim_{d['letter']}.{ext}")
-            write_dim_file(path, d["name"], d["items"], fmt, desc["orient"], desc["header"], sheet="items" if desc["sheets"] == "named" else None)
+            write_dim_file(path, d["name"], d["items"], fmt, desc["orient"], desc["header"], sheet="items" if desc["sheets"] == "named" else None,
+                           later_sheets=(d["name"],) if (fmt == "excel" and desc["sheets"] != "named" and desc.get("later_sheets")) else ())
             dfiles[d["name"]] = path
             dsheets[d["name"]] = "items"
         for p in base["params"]:
@@ -460,6 +468,9 @@ def run_files(desc):
                     df.to_excel(w, sheet_name="values" if desc["sheets"] == "named" else "Sheet1", index=False)
                     if desc["sheets"] == "named":
                         pd.DataFrame({"x": [1]}).to_excel(w, sheet_name="zz notes", index=False)
+                    elif desc.get("later_sheets"):
+                        # no sheet named: the first one counts, also when a later sheet is called like the parameter
+                        pd.DataFrame({"value": [123.0]}).to_excel(w, sheet_name=p["name"][:31], index=False)
             pfiles[p["name"]] = path
             psheets[p["name"]] = "values"
         try:
@@ -494,7 +505,7 @@ def file_cases(draw):
     # 0-d parameters cannot be told apart from a bare value column; keep >= 1 dim for file based parameters
     base["params"] = [p for p in base["params"] if p["letters"]]
     fmt = draw(st.sampled_from(["csv", "excel", "excel"]))
-    return {"base": base, "fmt": fmt, "sheets": draw(st.sampled_from(["named", "first"])) if fmt == "excel" else "n/a", "orient": draw(st.sampled_from(["row", "col"])), "header": draw(st.booleans())}
+    return {"base": base, "fmt": fmt, "sheets": draw(st.sampled_from(["named", "first"])) if fmt == "excel" else "n/a", "orient": draw(st.sampled_from(["row", "col"])), "header": draw(st.booleans()), "later_sheets": draw(st.booleans())}
 
 
 class Files(Facet):
